@@ -66,6 +66,11 @@ double mxGetScalar(const mxArray *a) {
     default: return 0.0; } }
 size_t mxGetM(const mxArray *a) { return a->m; }
 size_t mxGetN(const mxArray *a) { return a->n; }
+size_t mxGetNumberOfElements(const mxArray *a) { return a->m * a->n; }
+mwSize mxGetNumberOfDimensions(const mxArray *) { return 2; }
+bool mxIsEmpty(const mxArray *a) { return a->m * a->n == 0; }
+bool mxIsNumeric(const mxArray *a) { return a->cls != mxCHAR_CLASS && a->cls != mxLOGICAL_CLASS && a->cls != mxSTRUCT_CLASS; }
+bool mxIsLogical(const mxArray *a) { return a->cls == mxLOGICAL_CLASS; }
 mxClassID mxGetClassID(const mxArray *a) { return a->cls; }
 bool mxIsDouble(const mxArray *a) { return a->cls == mxDOUBLE_CLASS; }
 bool mxIsComplex(const mxArray *) { return false; }
